@@ -56,6 +56,11 @@ def all_cells_loop(fn, fold):
         if isinstance(it, ast.Call) and norm_src(it.func) in ("itertools.chain.from_iterable", "chain.from_iterable") and len(it.args) == 1 and \
                 norm_src(it.args[0]) in nl_names:
             return True, "for cell in chain.from_iterable(node_list)"
+        if isinstance(it, (ast.ListComp, ast.GeneratorExp)) and len(it.generators) == 2 and not it.generators[0].ifs and not it.generators[1].ifs and \
+                isinstance(it.generators[0].target, ast.Name) and isinstance(it.generators[1].target, ast.Name) and \
+                norm_src(it.generators[0].iter) in nl_names and norm_src(it.generators[1].iter) == it.generators[0].target.id and \
+                norm_src(it.elt) == it.generators[1].target.id:
+            return True, "for cell in [cell for layer in node_list for cell in layer]"
         if isinstance(it, ast.Call) and norm_src(it.func) in ("itertools.chain", "chain") and len(it.args) == 1 and isinstance(it.args[0], ast.Starred) and \
                 norm_src(it.args[0].value) in nl_names:
             return True, "for cell in chain(*node_list)"
@@ -225,6 +230,24 @@ def check_eval(ctx, cls, fold):
                 [s for s in fold.inner.body if fold.if_node in list(ast.walk(s))][0]) and norm_src(calls[0].func.value) == fold.cand
         ctx.ob("R07-EVAL", okc, cls.file, "StroquOOL.get_last_point", "each candidate's mean is refreshed before it is compared", "%s" % [norm_src(c) for c in calls],
                glp.lineno)
+        # the validated candidates are the searched cells themselves (one pooled object per cell, however many precisions selected
+        # it): what enters self.candidate is the winner of the scan over self.chosen, not a copy or anything derived from it
+        pull = model.own_method("StroquOOL", "pull")
+        apps = [x for x in ast.walk(pull) if isinstance(x, ast.Call) and norm_src(x.func) in ("self.candidate.append",) and len(x.args) == 1]
+        folds_p = [f2 for f2 in ID.find_folds(pull) if f2.set_src in ("self.chosen",) or "self.chosen" in (f2.set_src or "")]
+        okp = bool(apps) and len(folds_p) == 1
+        whyp = "%d append site(s), %d scan(s) over self.chosen" % (len(apps), len(folds_p))
+        if okp:
+            f2 = folds_p[0]
+            for x in apps:
+                if norm_src(x.args[0]) != f2.best:
+                    okp = False
+                    whyp = "self.candidate receives '%s', not the winner '%s' of the scan over the searched cells" % (norm_src(x.args[0]), f2.best)
+            extra = [s2 for s2 in ID.assignments_outside(pull, f2.best, f2) if norm_src(s2.value) not in ("None",)]
+            if extra:
+                okp = False
+                whyp = "the winner '%s' is replaced before it is stored: %s" % (f2.best, norm_src(extra[0]))
+        ctx.ob("R07-EVAL", okp, cls.file, "StroquOOL.pull", "validated candidates are the searched cells themselves", whyp, pull.lineno)
 
 
 def chosen_append_ok(model, cls, fn, call):
